@@ -1,5 +1,5 @@
 (* C01: step-local facts of the interleaving model RbConcModel.v (constants, purity of the read-only steps,
-   the refused write).  The invariant and the schedule-quantified theorems are in RbConcInv.v. *)
+   the refused write).  The invariant and the schedule-quantified theorems are in RbConcProofsInv.v. *)
 From Coq Require Import ZArith List Bool Lia ZifyBool.
 Import ListNotations.
 Require Import Verif.gen.Consts_rb Verif.gen.Consts_rbconc Verif.RbModel Verif.RbMem Verif.RbSpec Verif.RbProofs
